@@ -1192,3 +1192,88 @@ Proof.
   exists witness_fractional_eph. split; [|split; vm_compute; reflexivity].
   apply (bool_decide_unpack _). vm_compute. exact I.
 Qed.
+
+(* ---------- events: the cached task and the node's Used after every AddPod / UpdatePod ---------- *)
+
+Definition same_amounts (a b : res) : Prop :=
+  cpu a = cpu b /\ mem a = mem b /\ forall k, sget a k = sget b k.
+
+Definition ev_inv (st : cache_st) : Prop :=
+  same_amounts (st_used st) (st_task st) /\ sc (st_used st) <> None.
+
+Lemma sc_add_nonempty r x : scm x <> ∅ -> sc (add r x) <> None.
+Proof. intros H. unfold add. cbn [sc]. fold (scm x). rewrite bool_decide_eq_false_2 by exact H. discriminate. Qed.
+
+Lemma ev_add_inv r : scm r <> ∅ -> ev_inv (ev_add r).
+Proof.
+  intros H. split; [|apply sc_add_nonempty; exact H]. unfold ev_add; cbn [st_used st_task].
+  split; [rewrite add_cpu; reflexivity|]. split; [rewrite add_mem; reflexivity|].
+  intros k. rewrite add_sget. reflexivity.
+Qed.
+
+Lemma ev_update_inv st r : ev_inv st -> scm r <> ∅ -> ev_inv (ev_update st r).
+Proof.
+  intros [(Hc & Hm & Hs) Hn] H. split; [|apply sc_add_nonempty; exact H].
+  unfold ev_update; cbn [st_used st_task].
+  split; [rewrite add_cpu, sub_cpu; lia|]. split; [rewrite add_mem, sub_mem; lia|].
+  intros k. rewrite add_sget, sub_sget by exact Hn. rewrite Hs. lia.
+Qed.
+
+(* induction over the event history: after EVERY event the cached task is the
+   request of the pod object of that event and the node's Used carries exactly
+   its amounts - whatever the earlier versions were *)
+Lemma ev_trace_from_spec reqs : forall st,
+  ev_inv st -> Forall (fun r => scm r <> ∅) reqs ->
+  Forall2 (fun st' r => st_task st' = r /\ same_amounts (st_used st') r) (ev_trace_from st reqs) reqs.
+Proof.
+  induction reqs as [|r rs IH]; intros st Hi Hr; [constructor|].
+  apply Forall_cons in Hr as [Hr Hrs]. cbn [ev_trace_from].
+  pose proof (ev_update_inv st r Hi Hr) as Hi'. constructor; [|apply IH; assumption].
+  split; [reflexivity|]. exact (proj1 Hi').
+Qed.
+
+Theorem ev_trace_spec reqs :
+  Forall (fun r => scm r <> ∅) reqs ->
+  Forall2 (fun st r => st_task st = r /\ same_amounts (st_used st) r) (ev_trace reqs) reqs.
+Proof.
+  destruct reqs as [|r rs]; intros Hr; [constructor|].
+  apply Forall_cons in Hr as [Hr Hrs]. cbn [ev_trace].
+  pose proof (ev_add_inv r Hr) as Hi. constructor; [|apply ev_trace_from_spec; assumption].
+  split; [reflexivity|]. exact (proj1 Hi).
+Qed.
+
+Section Events.
+Variable tracked : positive -> bool.
+Variable plsup : positive -> bool.
+
+Lemma want_nonempty (up : res) keys : scm (cache_add_csi (add_scalar up pods_name 1) keys) <> ∅.
+Proof.
+  intros E. apply (f_equal (fun x => x !! pods_name)) in E.
+  unfold cache_add_csi in E. rewrite add_lookup, scm_add_scalar, lookup_insert, lookup_empty in E.
+  destruct (scm _ !! pods_name); discriminate.
+Qed.
+
+(* EVENT-LEVEL THEOREM: a pod delivered as AddPod(v0), UpdatePod(v0,v1), ...; every
+   version with its own resolved volume names and lifecycle position.  After every
+   event the cached task's request is upstream's request of THAT version (+ pods
+   + volumes) and the node's Used carries the same amounts. *)
+Theorem event_history_eq_upstream ippvs plr ippl dra (vs : list (list positive * pod_meta * pod)) :
+  Forall (fun x => pod_ok tracked plsup x.2) vs ->
+  Forall2 (fun st x =>
+             let want := cache_add_csi
+               (add_scalar (new_resource tracked (k8s_pod_requests plsup (opts_of ippvs plr ippl dra) x.2)) pods_name 1) x.1.1 in
+             st_task st = want /\ same_amounts (st_used st) want)
+          (ev_trace (map (fun x => cache_task_resreq tracked plsup ippvs plr ippl dra x.1.1 x.1.2 x.2) vs)) vs.
+Proof.
+  intros Hok.
+  set (g := fun x : list positive * pod_meta * pod => cache_add_csi
+               (add_scalar (new_resource tracked (k8s_pod_requests plsup (opts_of ippvs plr ippl dra) x.2)) pods_name 1) x.1.1).
+  rewrite (map_ext_Forall' _ g _ vs
+             (fun x Hx => proj1 (cache_reservation_eq_upstream tracked plsup ippvs plr ippl dra x.1.1 x.1.2 x.2 Hx)) Hok).
+  assert (Forall (fun r => scm r <> ∅) (map g vs)) as Hne.
+  { apply Forall_fmap, Forall_forall. intros x _. apply want_nonempty. }
+  pose proof (ev_trace_spec (map g vs) Hne) as H. apply Forall2_fmap_r in H.
+  eapply Forall2_impl; [exact H|]. intros st x Hst. exact Hst.
+Qed.
+
+End Events.
